@@ -10,16 +10,23 @@ PROPS = ["C03", "C06", "C07"]
 
 # per property and tier: list of (cfg, mode)
 CONFIGS = {
-    "C01": {"quick": [("ControllerMC_share.cfg", "edges")],
-            "thorough": [("ControllerMC_share.cfg", "edges"), ("ControllerMC_share_sim.cfg", "sim")]},
-    "C02": {"quick": [("ControllerMC_req.cfg", "edges"), ("ControllerMC_dual.cfg", "edges")],
-            "thorough": [("ControllerMC_req.cfg", "edges"), ("ControllerMC_dual.cfg", "edges"), ("ControllerMC_dual_sim.cfg", "sim")]},
-    "C03": {"quick": [("ControllerMC_stable.cfg", "edges"), ("ControllerMC_stable_il.cfg", "edges")],
-            "thorough": [("ControllerMC_stable.cfg", "edges"), ("ControllerMC_stable_sim.cfg", "sim")]},
-    "C06": {"quick": [("ControllerMC_crash.cfg", "edges")],
-            "thorough": [("ControllerMC_crash.cfg", "edges"), ("ControllerMC_crash_sim.cfg", "sim")]},
-    "C07": {"quick": [("ControllerMC_starve.cfg", "edges")],
-            "thorough": [("ControllerMC_starve.cfg", "edges"), ("ControllerMC_starve_sim.cfg", "sim")]},
+    "C01": {"quick": [("ControllerMC_share.cfg", "edges"), ("ControllerMC_fault.cfg", "edges"), ("ControllerMC_crash.cfg", "edges")],
+            "thorough": [("ControllerMC_share.cfg", "edges"), ("ControllerMC_fault.cfg", "edges"), ("ControllerMC_crash.cfg", "edges"),
+                         ("ControllerMC_share_sim.cfg", "sim")]},
+    "C02": {"quick": [("ControllerMC_req.cfg", "edges"), ("ControllerMC_dual.cfg", "edges"), ("ControllerMC_pinmove.cfg", "edges"),
+                      ("ControllerMC_dualreq.cfg", "edges")],
+            "thorough": [("ControllerMC_req.cfg", "edges"), ("ControllerMC_dual.cfg", "edges"), ("ControllerMC_pinmove.cfg", "edges"),
+                         ("ControllerMC_dualreq.cfg", "edges"), ("ControllerMC_dual_sim.cfg", "sim")]},
+    "C03": {"quick": [("ControllerMC_stable.cfg", "edges"), ("ControllerMC_stable_il.cfg", "edges"), ("ControllerMC_stablefault.cfg", "edges"),
+                      ("ControllerMC_crash3.cfg", "edges")],
+            "thorough": [("ControllerMC_stable.cfg", "edges"), ("ControllerMC_stable_il.cfg", "edges"), ("ControllerMC_stablefault.cfg", "edges"),
+                         ("ControllerMC_stable_sim.cfg", "sim")]},
+    "C06": {"quick": [("ControllerMC_crash.cfg", "edges"), ("ControllerMC_crash3.cfg", "edges"), ("ControllerMC_fault.cfg", "edges")],
+            "thorough": [("ControllerMC_crash.cfg", "edges"), ("ControllerMC_crash3.cfg", "edges"), ("ControllerMC_fault.cfg", "edges"),
+                         ("ControllerMC_stale.cfg", "edges"),
+                         ("ControllerMC_crash_sim.cfg", "sim"), ("ControllerMC_stale_sim.cfg", "sim")]},
+    "C07": {"quick": [("ControllerMC_starve.cfg", "edges"), ("ControllerMC_fault.cfg", "edges")],
+            "thorough": [("ControllerMC_starve.cfg", "edges"), ("ControllerMC_fault.cfg", "edges"), ("ControllerMC_starve_sim.cfg", "sim")]},
     "C11": {"quick": [("ControllerMC_share.cfg", "edges")],
             "thorough": [("ControllerMC_share.cfg", "edges"), ("ControllerMC_crash_sim.cfg", "sim")]},
 }
@@ -42,16 +49,17 @@ def release_kind(walk_obs, k):
         a, b = walk_obs[r - 1], walk_obs[r]
         if a["ctl"] != b["ctl"]:
             return "pools"
+        wf = "+writefail" if any(not x.get("ok") for x in b.get("writes", [])) else ""
         for s, m in a["mem"].items():
             n = b["mem"].get(s)
             if n is None:
-                return "removed"
+                return "removed" + wf
             if sorted(n["ips"]) != sorted(m["ips"]):
-                return "ips"
+                return "ips" + wf
             if n["ports"] != m["ports"]:
-                return "ports"
+                return "ports" + wf
             if (n["sk"], n["bk"]) != (m["sk"], m["bk"]):
-                return "key"
+                return "key" + wf
     return "none"
 
 
@@ -195,7 +203,7 @@ def confirm(chk, mine, steps, inits, domain_path, byw):
             if name in again.get(w, set()):
                 chk.fail(signature(name, o, byw[w], f["step"]), name,
                          detail={"observation": o, "history": history_kind(byw[w], f["step"])},
-                         scenario={"family": "ctrl", "init": inits[n], "steps": steps[n]})
+                         scenario={"family": "ctrl", "id": w, "init": inits[n], "steps": steps[n]})
             else:
                 chk.notes.append("unreproduced: %s obs %d %s" % (w, f["step"], name))
     # every failing (predicate, op) pair that was not selected is represented by its signature already
@@ -211,7 +219,7 @@ def replay(chk, path):
     sc = body["scenario"]
     scen = os.path.join(chk.work, "scen_replay.ndjson")
     with open(scen, "w") as fh:
-        fh.write(json.dumps({"id": "w0", "init": sc["init"], "steps": sc["steps"]}) + "\n")
+        fh.write(json.dumps({"id": sc.get("id", "w0"), "init": sc["init"], "steps": sc["steps"]}) + "\n")
     obs_path = replay_walks(chk, scen, domain_path, "replay")
     fails, nlines = judge(chk, obs_path)
     obs = [json.loads(l) for l in open(obs_path)]
